@@ -43,7 +43,7 @@ def check_bary_partition(space, coarse_elems, fail, name):
                 fail("partition_of_unity", "%s: barycentric element %d of selected element %d is outside the support" % (name, b, e))
                 return
             tot = sum(v for v in bary_values(space, b, pts, D).values())
-            if np.abs(np.asarray(tot) - 1).max() > 1e-12:
+            if not (np.abs(np.asarray(tot) - 1).max() <= 1e-12):   # NaN counts as a deviation
                 fail("partition_of_unity", "%s basis sums to %s on barycentric element %d (coarse %d)" % (name, np.round(np.asarray(tot).ravel(), 4), b, e))
                 return
 
@@ -104,7 +104,7 @@ def check_dual1_attachment(api, grid, ob, sp, S, fail):
                 for k, e in enumerate(S):
                     got = float(vals[k][0, q]) if k in vals else 0.0
                     want = 1.0 if e == p else 0.0
-                    if abs(got - want) > 1e-9:
+                    if not (abs(got - want) <= 1e-9):   # NaN counts as a deviation
                         fail("dual1_attachment", "DUAL1 dof %d (element %d of the selection) takes %.4g at the barycentre of element %d" % (k, e, got, p))
                         return
 
